@@ -20,6 +20,8 @@ use std::fmt;
 pub enum ValidationError {
     NonNullConstraintViolated(DatabaseItem),
     UniqueConstraintViolated(DatabaseItem),
+    /// The key is held by a transaction that is still running or committed after we began.
+    UniqueKeyConflict(DatabaseItem),
     ForeignKeyViolation(DatabaseItem),
     TupleError(TupleError),
     SerializationError(SerializationError),
@@ -35,6 +37,12 @@ impl fmt::Display for ValidationError {
             }
             ValidationError::UniqueConstraintViolated(item) => {
                 write!(f, "UNIQUE constraint violated on {item}")
+            }
+            ValidationError::UniqueKeyConflict(item) => {
+                write!(
+                    f,
+                    "write-write conflict: another transaction holds the same UNIQUE key on {item}"
+                )
             }
             ValidationError::ForeignKeyViolation(item) => {
                 write!(f, "FOREIGN KEY constraint violated on {item}")
@@ -258,6 +266,7 @@ impl<'a> ConstraintValidator<'a> {
             // Found a matching key - need to check if it's VISIBLE to our snapshot
             // If the tuple was deleted and the delete is visible, it's not a conflict
             let tuple_reader = TupleReader::from_schema(index_schema);
+            let mut held_by_other = false;
 
             let is_found = index_btree.with_cell_at(pos, |bytes| {
                 // Parse the tuple for our snapshot - this respects MVCC visibility
@@ -284,12 +293,33 @@ impl<'a> ConstraintValidator<'a> {
                         Ok::<bool, TupleError>(true)
                     }
                     None => {
-                        // Tuple is NOT visible (deleted or not yet committed)
-                        // No conflict
+                        // Tuple is NOT visible: deleted (no conflict), written by a transaction
+                        // that aborted (no conflict) - or written by one that is still running or
+                        // committed after we began. That one holds the key: two rows with it
+                        // would both commit.
+                        let tuple = crate::storage::tuple::Tuple::from_slice_unchecked(bytes)?;
+                        let aborted = |xid| {
+                            snapshot.is_transaction_aborted(xid)
+                                || self.ctx.pager().read().is_transaction_aborted(xid)
+                        };
+                        let deleted = tuple.xmax().is_some_and(|xmax| !aborted(xmax));
+                        held_by_other = !deleted && !aborted(tuple.xmin());
                         Ok::<bool, TupleError>(false)
                     }
                 }
             })??;
+
+            if held_by_other {
+                let col_names: Vec<&str> = index
+                    .indexed_column_ids()
+                    .iter()
+                    .filter_map(|&idx| self.schema.column(idx).map(|c| c.name()))
+                    .collect();
+                return Err(ValidationError::UniqueKeyConflict(DatabaseItem::Column(
+                    col_names.join(","),
+                    self.table_name.to_string(),
+                )));
+            }
 
             return Ok(is_found);
         }
